@@ -67,6 +67,14 @@ func New(prop, tier, level string) *Run {
 		distinct: map[string]map[string]struct{}{}, viol: map[string]*violation{},
 		known: map[string]string{}, knownHit: map[string]*violation{}, Exhaustive: true}
 	r.loadKnown()
+	if os.Getenv("VERIF_WORKER") == "" {
+		// replays of earlier runs of this property are stale
+		if old, err := filepath.Glob(filepath.Join(Root, "replays", prop+"-*.json")); err == nil {
+			for _, f := range old {
+				os.Remove(f)
+			}
+		}
+	}
 	return r
 }
 
